@@ -1205,6 +1205,223 @@ def section_cqm(ctx, r, corr):
             corr.add(f'irange {rat(lb)} {rat(ub)}', ','.join(str(int(x)) for x in es._iterator_by_vartype(cqm, v)), '_iterator_by_vartype', f'{v!r}: [{lb}, {ub}]')
 
 
+# ------------------------------------------------------------------ section R7: remaining branches of the polynomial composites
+
+def _is_pow2(q):
+    q = abs(F(q))
+    return q != 0 and (q.numerator & (q.numerator - 1)) == 0 and (q.denominator & (q.denominator - 1)) == 0
+
+
+def _rows_exp(rows):
+    return '|'.join(sorted(','.join(sorted(f'{lab(v)}={rat(x[v])}' for v in x)) + '@' + rat(e) for x, e in rows))
+
+
+def section_round7(ctx, r, corr):
+    """PolyScaleComposite(scalar=None) = BinaryPolynomial.normalize + recovered scalar; PolyFixedVariableComposite with every
+    branch (None / {} / part / all / more than all variables fixed x a child with and without rows); Truncate/PolyTruncate
+    `__init__` with n < 1.  Real composites over real children; each answer against the submitted problem (predicate) and
+    against the Lean model (`pnorm`, `pfull`, `tinit`)."""
+    # ---- (a) PolyScaleComposite, scalar=None
+    for pi in range(ctx.scale(600, 9000)):
+        pow2 = r.random() < .5
+        prob = PolyProblem(r, pow2=pow2)
+        n = len(prob.labels)
+        src = prob.src()
+        keys = [k for k in prob.terms if len(k) > 0]
+        ign = r.sample(keys, r.randint(1, min(2, len(keys)))) if keys and r.random() < .4 else []
+        ign_const = bool(ign) and frozenset() in prob.terms and r.random() < .15
+        live = {k: b for k, b in prob.terms.items() if k not in ign}
+        L = max([abs(b) for k, b in live.items() if len(k) == 1] or [F(0)])
+        P = max([abs(b) for k, b in live.items() if len(k) > 1] or [F(0)])
+        mode = r.choice(['default', 'num', 'num', 'both', 'pair', 'pair', 'zero'])
+
+        def one_range(M, kind):
+            """a range whose relevant end makes the quotient a power of two: number or pair"""
+            base = M if (M != 0 and not pow2) else F(1)
+            R = base * r.choice([1, 2, 4, F(1, 2), F(1, 4)])
+            if kind == 'num':
+                return R * r.choice([1, 1, -1])
+            if pow2:
+                return r.choice([(-R, R), (-R, 2 * R), (-2 * R, R), (-R / 2, 4 * R), (R, -R), (2 * R, R)])
+            return (-R, R)
+        kw = {}
+        zero = False
+        if mode == 'default':
+            pass
+        elif mode == 'num':
+            kw['bias_range'] = one_range(max(L, P), 'num')
+        elif mode == 'both':
+            kw['bias_range'] = one_range(L, r.choice(['num', 'pair']))
+            kw['poly_range'] = one_range(P, r.choice(['num', 'pair']))
+        elif mode == 'pair':
+            kw['bias_range'] = one_range(max(L, P), 'pair')
+        else:
+            zero = True
+            z = r.choice([0, (0, 1), (-1, 0), (0, 0)])
+            if r.random() < .5:
+                kw['bias_range'] = z
+            else:
+                kw['bias_range'] = r.choice([1, 2, (-1, 1)]); kw['poly_range'] = z
+        # exactness guard (independent of the model): inv_scalar must be 0 or a power of two
+        def ends(a):
+            return (-abs(F(a)), abs(F(a))) if not isinstance(a, tuple) else (F(a[0]), F(a[1]))
+        lr = ends(kw.get('bias_range', 1)); prg = ends(kw['poly_range']) if 'poly_range' in kw else lr
+        if not zero:
+            lmin = min([b for k, b in live.items() if len(k) == 1] + [F(0)]); lmax = max([b for k, b in live.items() if len(k) == 1] + [F(0)])
+            pmin = min([b for k, b in live.items() if len(k) > 1] + [F(0)]); pmax = max([b for k, b in live.items() if len(k) > 1] + [F(0)])
+            inv = max(lmin / lr[0], lmax / lr[1], pmin / prg[0], pmax / prg[1])
+            if inv != 0 and not _is_pow2(inv):
+                ctx.tick('r7:pnorm skipped (inexact)')
+                continue
+        fl = lambda a: tuple(float(x) for x in a) if isinstance(a, tuple) else float(a)  # noqa: E731
+        kwf = {k: fl(v) for k, v in kw.items()}
+        ignk = [tuple(k) for k in ign] + ([()] if ign_const else [])
+        if ignk:
+            kwf['ignored_terms'] = ignk
+        call = 'dimod.PolyScaleComposite(dimod.ExactPolySolver()).sample_poly(POLY' + ''.join(f', {k}={v!r}' for k, v in kwf.items()) + ')'
+        site = 'PolyScaleComposite.sample_poly'
+        ctx.case(('pnorm', pi, n, mode, repr(sorted(kwf.items()))), nontrivial=n > 0 and bool(keys),
+                 sample=dict(call=call, problem=src[:300]) if pi % 97 == 5 else None)
+        ctx.tick(f'r7:pnorm {mode}' + (' ignored' if ignk else ''))
+        try:
+            ss = dimod.PolyScaleComposite(dimod.ExactPolySolver()).sample_poly(prob.poly(), **kwf)
+            got = 'ok'
+        except ZeroDivisionError:
+            ss, got = None, 'err'
+        except Exception as e:  # noqa
+            ctx.fail('property', site, f'scalar=None {type(e).__name__}', f'{call}: {type(e).__name__}: {e}', repro=PRE + src + call + '\n')
+            continue
+        if (got == 'err') != zero:
+            ctx.fail('property', site, 'scalar=None range end 0', f'{call}: {"refused" if got == "err" else "accepted"}',
+                     repro=PRE + src + ('try:\n    ' + call + '\nexcept ZeroDivisionError:\n    pass\nelse:\n    raise AssertionError("accepted")\n' if zero else call + '\n'))
+            continue
+        if ss is not None:
+            if not validate(ctx, ss, prob, site, f'scalar=None {prob.vartype} {mode}' + (' ignored_terms' if ignk else ''), src, call,
+                            exact=prob.labels if n else None):
+                continue
+        if not ign_const:
+            def rtxt(a):
+                return f'{rat(F(a[0]))}:{rat(F(a[1]))}' if isinstance(a, tuple) else rat(F(a))
+            line = (f"pnorm {int(prob.spin)} {rtxt(kw.get('bias_range', 1))} {rtxt(kw['poly_range']) if 'poly_range' in kw else '-'} ; "
+                    + ('|'.join('&'.join(lab(v) for v in k) for k in ign) or '-') + f' ; {prob.wire()}')
+            corr.add(line, 'err' if ss is None else 'ok ' + _rows_exp(rows_of(ss)), site, src + call)
+    # ---- (b) PolyFixedVariableComposite, every branch
+    for pi in range(ctx.scale(600, 9000)):
+        prob = PolyProblem(r)
+        n = len(prob.labels)
+        src = prob.src()
+        m = r.choice(['none', 'empty', 'part', 'part', 'part', 'part', 'all', 'more'])
+        childk = r.choice(['exact', 'exact', 'null']) if m != 'part' else r.choice(['exact', 'null'])
+        if m == 'none':
+            fixed = None
+        elif m == 'empty':
+            fixed = {}
+        elif m == 'part':
+            fixed = {v: r.choice(prob.domain(v)) for v in r.sample(prob.labels, r.randint(0, n))}
+        else:
+            fixed = {v: r.choice(prob.domain(v)) for v in r.sample(prob.labels, n)}
+            if m == 'more':
+                fixed[r.choice(['nowhere', 77])] = r.choice(prob.domain(None))
+        csrc = 'dimod.ExactPolySolver()' if childk == 'exact' else 'dimod.HigherOrderComposite(dimod.NullSampler())'
+        child = dimod.ExactPolySolver() if childk == 'exact' else dimod.HigherOrderComposite(dimod.NullSampler())
+        call = f'dimod.PolyFixedVariableComposite({csrc}).sample_poly(POLY, fixed_variables={fixed!r})'
+        site = 'PolyFixedVariableComposite.sample_poly'
+        free = [v for v in prob.labels if not (fixed and v in fixed)]
+        branch = ('None' if fixed is None else 'child rows' if (childk == 'exact' and free) else
+                  'no child rows, nothing fixed' if not fixed else 'no child rows, all fixed' if not free else 'no child rows, free variables remain')
+        ctx.case(('pfull', pi, n, childk, m, repr(fixed)), nontrivial=n > 0, sample=dict(call=call, problem=src[:300]) if pi % 97 == 5 else None)
+        ctx.tick(f'r7:pfull {branch}')
+        try:
+            ss = dimod.PolyFixedVariableComposite(child).sample_poly(prob.poly(), fixed_variables=None if fixed is None else dict(fixed))
+        except Exception as e:  # noqa
+            ctx.fail('property', site, f'{type(e).__name__} {branch}', f'{call}: {type(e).__name__}: {e}', repro=PRE + src + call + '\n')
+            continue
+        # predicate, independent of the model: number of rows of the branch, then every row against the submitted problem
+        want_rows = (2 ** len(free) if (childk == 'exact' and free) else 1 if (fixed and not free) else 0)
+        if len(ss) != want_rows:
+            ctx.fail('property', site, f'number of rows ({branch})', f'{call}: {len(ss)} rows, expected {want_rows}',
+                     repro=PRE + src + f'ss = {call}\nassert len(ss) == {want_rows}, len(ss)\n')
+            continue
+        extra = [v for v in (fixed or {}) if v not in prob.labels]
+        fx = {v: F(x) for v, x in (fixed or {}).items()}
+        if len(ss) or set(ss.variables) != set(prob.labels) | set(extra):
+            if not validate(ctx, ss, prob, site, f'{prob.vartype} {branch}', src, call, aux=extra,
+                            exact=free if (childk == 'exact' and free) else None, fixed=fx or None):
+                continue
+        corr.add(f"pfull {int(prob.spin)} {childk} {'none' if fixed is None else 'some'} ; {prob.wire()} ; "
+                 + (','.join(f'{lab(v)}={rat(x)}' for v, x in (fixed or {}).items()) or '-'), _rows_exp(rows_of(ss)), site, src + call)
+    # ---- (c) TruncateComposite / PolyTruncateComposite: n < 1 refused at construction, otherwise min(n, len) child rows in order
+    for pi in range(ctx.scale(300, 4000)):
+        prob = PolyProblem(r, nmax=3)
+        if not prob.labels:
+            continue
+        tn, agg = r.randint(-2, 6), r.random() < .4
+        poly = r.random() < .5
+        src = prob.src()
+        ctor = 'PolyTruncateComposite' if poly else 'TruncateComposite'
+        inner = 'dimod.ExactPolySolver()' if poly else 'dimod.ExactSolver()'
+        call = f'dimod.{ctor}({inner}, {tn}, sorted_by=None, aggregate={agg})'
+        site = f'{ctor}.__init__'
+        ctx.case(('tinit', pi, tn, agg, poly), nontrivial=True); ctx.tick(f'r7:tinit {ctor} ' + ('n<1' if tn < 1 else 'n>=1'))
+        try:
+            comp = getattr(dimod, ctor)(dimod.ExactPolySolver() if poly else dimod.ExactSolver(), tn, sorted_by=None, aggregate=agg)
+            refused = False
+        except ValueError:
+            refused = True
+        if refused != (tn < 1):
+            ctx.fail('property', site, 'n < 1', f'{call}: {"refused" if refused else "accepted"}',
+                     repro=PRE + (f'try:\n    {call}\nexcept ValueError:\n    pass\nelse:\n    raise AssertionError("accepted")\n' if tn < 1 else call + '\n'))
+            continue
+        rec = lambda s_: [('.'.join(str(int(x)) for x in row), rat(fr(e)), int(o)) for row, e, o in zip(s_.record.sample, s_.record.energy, s_.record.num_occurrences)]  # noqa: E731
+        if poly:
+            childss = dimod.ExactPolySolver().sample_poly(prob.poly())
+            out = None if refused else comp.sample_poly(prob.poly())
+        else:
+            if any(len(k) > 2 for k in prob.terms) or prob.spin and False:
+                continue
+            lin = {next(iter(k)): float(b) for k, b in prob.terms.items() if len(k) == 1}
+            quad = {tuple(k): float(b) for k, b in prob.terms.items() if len(k) == 2}
+            bqm = BQM(lin, quad, float(prob.terms.get(frozenset(), 0)), prob.vartype)
+            childss = dimod.ExactSolver().sample(bqm)
+            out = None if refused else comp.sample(bqm)
+        if out is not None:
+            if len(out) != min(tn, len(childss)) or rec(out) != rec(childss)[:len(out)]:
+                ctx.fail('property', f'{ctor}.sample' + ('_poly' if poly else ''), 'sorted_by=None', f'{call}: rows {rec(out)} of child rows {rec(childss)}',
+                         repro=PRE + src + '# ' + call + '\nassert False\n')
+                continue
+        corr.add(f'tinit {tn} 0 {int(agg)} ; ' + '|'.join('@'.join(map(str, t)) for t in rec(childss)),
+                 'err' if out is None else 'ok ' + '|'.join('@'.join(map(str, t)) for t in rec(out)), site, src + call)
+
+    # ---- (d) ExactPolySolver.sample_poly / ExactSolver.sample as coded: rows in record order against `exactRows`
+    def ordered(ss):
+        labels = list(ss.variables)
+        return '|'.join(','.join(sorted(f'{lab(v)}={rat(fr(x))}' for v, x in zip(labels, row))) + '@' + rat(fr(e))
+                        for row, e in zip(ss.record.sample, ss.record.energy))
+    for pi in range(ctx.scale(400, 6000)):
+        # `vars` of the model = list(problem.variables) of the very object handed to the solver (the gray-code column order);
+        # the sample set may present its columns in another (sorted) order, so rows are compared by label
+        if r.random() < .5:
+            prob = PolyProblem(r)
+            obj = prob.poly()
+            ss = dimod.ExactPolySolver().sample_poly(obj)
+            call, site = 'dimod.ExactPolySolver().sample_poly(POLY)', 'ExactPolySolver.sample_poly'
+            line = f"xsolve {int(prob.spin)} poly ; {','.join(lab(v) for v in obj.variables) or '-'} ; {prob.wire()}"
+        else:
+            prob = BqmProblem(r, nmax=4)
+            obj = prob.bqm()
+            ss = dimod.ExactSolver().sample(obj)
+            call, site = 'dimod.ExactSolver().sample(BQM)', 'ExactSolver.sample'
+            line = f"xsolve {int(prob.spin)} bqm ; {','.join(lab(v) for v in obj.variables) or '-'} ; " + wire_bqm(prob)
+        n = len(prob.labels)
+        ctx.case(('xsolve', pi, site, n), nontrivial=n > 0); ctx.tick(f'r7:xsolve {site}' + (' n=0' if n == 0 else ''))
+        if not validate(ctx, ss, prob, site, f'{prob.vartype} as coded', prob.src(), call, exact=prob.labels if n else None):
+            continue
+        if n == 0 and len(ss) != 0:
+            ctx.fail('property', site, 'no variables', f'{len(ss)} rows for a problem without variables', repro=PRE + prob.src() + f'assert len({call}) == 0\n')
+            continue
+        corr.add(line, ordered(ss), site, prob.src() + call)
+
+
 def run(ctx):
     r = ctx.rng
     ctx.rule = ('random small problems (0-5 variables over mixed labels in non-sorted order, dyadic biases, constants, both vartypes) x '
@@ -1219,6 +1436,7 @@ def run(ctx):
     section_draws(ctx, r, corr)
     section_dqm(ctx, r, corr)
     section_cqm(ctx, r, corr)
+    section_round7(ctx, r, corr)
     got = run_driver('enumdriver', corr.lines)
     ctx.corr_lines += len(corr.lines)
     for i, ln in enumerate(corr.lines):
